@@ -2,14 +2,6 @@ SPECIFICATION MCSpec
 CONSTANT Params <- GettersParams
 CONSTANT MkCase <- GettersCase
 CONSTANT MaxTags = 3
-CONSTANT DstExtra = 9
-CONSTANT MaxD = 64
-CONSTANT LCap = 100
-CONSTANT MaxN = 3
-CONSTANT ElfSizes = {0, 8, 39, 40, 41, 64, 72}
-CONSTANT ElfRots = {0, 3}
-CONSTANT MaxStr = 3
-CONSTANT StrKinds = {"cmdline", "bootloader", "module"}
 INVARIANT DesignAccepted
 INVARIANT DesignControlled
 INVARIANT Export
